@@ -104,9 +104,10 @@ func check(c *Ctx, r *Report) error {
 		h.walk(h.g.Gen2(k%4+1), 0)
 	}
 	h.strata(TierN(c.Tier, 120, 2000, 400))
+	h.seamStrata(TierN(c.Tier, 60, 1000, 240)) // exact-seam points of the n-ary combinators (seam.go)
 
 	r.Coverage["node_oracles"] = h.hist
-	r.Rule = "correspondence: generated arguments for every matrix constructor / Mul / Inverse / Determinant / MulPosition of M22, M33, M44 (rotation axes incl. near-degenerate and huge, angles at and around multiples of pi/2, mirrors, products of rigid and non-rigid factors, nearly singular matrices), RoundMin/ChamferMin/PolyMin/PolyMax (radius from 1e-6 to 100x the operands), SawTooth, the four extrusion maps, CacheSDF2 histories with repeats / -0 / NaN, VoxelSDF3 at every kind of position; the Coq model at primitive floats must agree within 1e-12 relative (bit-exact agreement counted separately). direct oracles: every internal node of random expression trees (depth <= 4, 35 combinators, parameters recovered from the Coq term the generator emitted in lock step) and adversarial parameter strata: parent Evaluate vs the named operation on the children's Evaluate at 6 points per node; exact where the operation is exact in floating point (min, max, negation, offset, elongate, array), 1e-9 relative otherwise. non-trivial = a node with at least one operand that is itself a combinator, or a blend / matrix case off the trivial strata; distinct by tree description / argument tuple."
+	r.Rule = "correspondence: generated arguments for every matrix constructor / Mul / Inverse / Determinant / MulPosition of M22, M33, M44 (rotation axes incl. near-degenerate and huge, angles at and around multiples of pi/2, mirrors, products of rigid and non-rigid factors, nearly singular matrices), RoundMin/ChamferMin/PolyMin/PolyMax (radius from 1e-6 to 100x the operands), SawTooth, the four extrusion maps, CacheSDF2 histories with repeats / -0 / NaN, VoxelSDF3 at every kind of position; the Coq model at primitive floats must agree within 1e-12 relative (bit-exact agreement counted separately). direct oracles: every internal node of random expression trees (depth <= 4, 35 combinators, parameters recovered from the Coq term the generator emitted in lock step) and adversarial parameter strata: parent Evaluate vs the named operation on the children's Evaluate at 6 points per node; exact where the operation is exact in floating point (min, max, negation, offset, elongate, array), 1e-9 relative otherwise. exact seams: every union / intersection / difference / array node is additionally evaluated at points on an edge (face) of one operand's bounding box inside another operand's box and at exact zeros of an operand found by bisection from a point strictly inside another operand; operand sets on a dyadic grid (boxes, rounded boxes, discs, lines, offsets, exact quarter turns / mirrors, inner unions; boxes / spheres / cylinders in 3D) in every operand order on the full arrangement grid of their box edges, centres and midpoints (plain minimum: bit-exact minimum of the operand values; PolyMin: blend bounds). non-trivial = a node with at least one operand that is itself a combinator, or a blend / matrix case off the trivial strata; distinct by tree description / argument tuple."
 	r.Trusted = append(r.Trusted,
 		"hand model coq/Sdf/Shape.v tied to the Go code by differential execution (cmd/c01, same tree generator); matrix code translated from the Go AST by harness/exprgen on every run",
 		"Gallina port of Go math (coq/Num/GoMath.v)",
